@@ -38,4 +38,48 @@ theorem name_range_is_token_range (s : Slice) (r : Range) (t : Token)
   have : ¬ r.hi ≤ r.lo := by omega
   simp [this, ht]
 
+/-! ### scoping: locals and parameters before globals -/
+
+/-- **A name declared locally (parameter or variable) is resolved to that local declaration**,
+    whatever the global table contains under the same name (a procedure, a type, a predefined
+    entity). -/
+theorem local_shadows_global (l : LocalTable) (g : GlobalTable) (k : List Char) (e : LocalEntry)
+    (h : tblLookup l k = some e) :
+    lookupBoth (some l) g k = some (match e with
+      | .variable v => .variable v
+      | .parameter v => .parameter v) := by
+  simp only [lookupBoth, Option.bind, h]
+  cases e <;> rfl
+
+/-- A name with no local declaration is resolved in the global table, and only there. -/
+theorem global_fallback (l : LocalTable) (g : GlobalTable) (k : List Char)
+    (h : tblLookup l k = none) :
+    lookupBoth (some l) g k = (tblLookup g k).map Entry.ofGlobal := by
+  simp only [lookupBoth, Option.bind, h]
+  cases tblLookup g k with
+  | none => rfl
+  | some e => cases e <;> rfl
+
+/-- Outside a procedure (type declarations) only global names are visible. -/
+theorem no_locals_outside_procedures (g : GlobalTable) (k : List Char) :
+    lookupBoth none g k = (tblLookup g k).map Entry.ofGlobal := by
+  simp only [lookupBoth, Option.bind]
+  cases tblLookup g k with
+  | none => rfl
+  | some e => cases e <;> rfl
+
+/-- The first declaration of a name in a table wins (a table never holds two entries for one
+    name: `enter` refuses duplicates). -/
+theorem enter_refuses_duplicate {α} (t : List (List Char × α)) (k : List Char) (v w : α)
+    (h : tblLookup t k = some v) : tblEnter t k w = none := by
+  unfold tblLookup at h
+  unfold tblEnter
+  cases hf : t.find? (fun e => e.1 == k) with
+  | none => simp [hf] at h
+  | some e =>
+    have hm := List.mem_of_find?_eq_some hf
+    have hp := List.find?_some hf
+    have : t.any (fun e => e.1 == k) = true := List.any_eq_true.mpr ⟨e, hm, hp⟩
+    simp [this]
+
 end Spl.C12
